@@ -48,7 +48,8 @@ type c15Lk struct {
 }
 type c15Ann struct {
 	P c15Peer
-	M int // 1: NewStream fails at once, 2: WriteMsg fails at once, 3: delivered, but the write takes a while (network latency)
+	M int // 1: NewStream fails at once, 2: WriteMsg fails at once, 3: delivered, but the write takes a while (network latency),
+	// 4: delivered, but the recipient is very slow (the write is held for c15Hold x VERIF_SLOW)
 }
 type c15Entry struct {
 	E []byte
@@ -137,6 +138,7 @@ type c15World struct {
 	callEff map[int][]c15Eff
 	quiet       bool          // concurrent runs: effects are not recorded
 	latency     time.Duration // duration of a mode-3 write
+	hold        time.Duration // duration of a mode-4 write
 	mu          sync.Mutex
 	eff         []c15Eff
 	lk          map[c15Peer][]byte
@@ -192,6 +194,9 @@ func (w *c15World) NewStream(ctx context.Context, p p2p.Peer, _ p2p.Header, _ p2
 	st := &c15OutStream{w: w, to: c15FromPeer(p), failWrite: m == 2}
 	if m == 3 {
 		st.latency = lat
+	}
+	if m == 4 {
+		st.latency = w.hold
 	}
 	return st, nil
 }
@@ -343,7 +348,8 @@ type c15Sys struct {
 
 func c15New(probes []common.Address, slow int) *c15Sys {
 	logger := slog.New(slog.NewTextHandler(io.Discard, nil))
-	w := &c15World{lk: map[c15Peer][]byte{}, ann: map[c15Peer]int{}, latency: 5 * time.Millisecond * time.Duration(slow)}
+	w := &c15World{lk: map[c15Peer][]byte{}, ann: map[c15Peer]int{}, latency: 5 * time.Millisecond * time.Duration(slow),
+		hold: c15Hold * time.Duration(slow)}
 	topo := topology.New(w, logger)
 	disc := discovery.New(&c15Topo{w: w, inner: topo}, w, logger)
 	topo.SetAnnouncer(&c15Tee{w: w, inner: disc})
@@ -1141,6 +1147,34 @@ func c15AnnounceCtx(r *rand.Rand, slow int) (c15In, []c15ObsEv) {
 	return in, c15Run(in, slow)
 }
 
+// c15Hold: how long a very slow recipient (mode 4) keeps a write pending. Any shared deadline
+// shorter than this that Connected might put on its announcements is observed as lost
+// announcements; budgets above the hold are not observed.
+var c15Hold = 3500 * time.Millisecond
+
+// A provider connects while bidders and another provider are known; one recipient is very slow
+// (the newcomer itself when slowNewcomer, else one of the bidders) while all others answer at
+// once: every other recipient must still get its message.
+func c15SlowRecipient(r *rand.Rand, slowNewcomer bool) c15In {
+	pool := c15NewPool(r)
+	in := c15In{Probes: pool.probes}
+	var lk []c15Lk
+	for _, q := range pool.peers {
+		lk = append(lk, c15Lk{q, c15Underlay(q)})
+	}
+	for _, i := range []int{3, 4, 5, 1} {
+		q := pool.peers[i]
+		in.Evs = append(in.Evs, c15Event{K: "connected", P: &q, Lk: lk})
+	}
+	prov := pool.peers[0]
+	slowOne := prov
+	if !slowNewcomer {
+		slowOne = pool.peers[3+r.Intn(3)]
+	}
+	in.Evs = append(in.Evs, c15Event{K: "connected", P: &prov, Lk: lk, Ann: []c15Ann{{slowOne, 4}}})
+	return in
+}
+
 // Concurrent traffic on one Topology: every writer owns two addresses (in both roles).
 func c15Concurrent(r *rand.Rand, runMs int) c15In {
 	in := c15In{Readers: 2, RunMs: runMs}
@@ -1257,6 +1291,9 @@ func TestVerifC15(t *testing.T) {
 		e.Emit(class, in, obs, func(id int) string { return c15CoqCase(id, in, obs) })
 	}
 	emit := func(class string, in c15In, obs []c15ObsEv) { emitAny(class, in, c15Obs{Evs: obs}) }
+	if e.Tier == "thorough" {
+		c15Hold = 12 * time.Second
+	}
 	for _, raw := range e.Replay {
 		var in c15In
 		if err := json.Unmarshal(raw, &in); err != nil {
@@ -1267,6 +1304,17 @@ func TestVerifC15(t *testing.T) {
 	if e.OnlyReplay() {
 		return
 	}
+	// the slow-recipient cases take c15Hold each: they run beside everything else
+	var slowWG sync.WaitGroup
+	for _, newcomer := range []bool{true, false} {
+		in := c15SlowRecipient(e.rng, newcomer)
+		slowWG.Add(1)
+		go func() {
+			defer slowWG.Done()
+			emit("slow-recipient", in, c15Run(in, e.Slow))
+		}()
+	}
+	defer slowWG.Wait()
 	depth := 3
 	if e.Tier == "thorough" {
 		depth = 4
